@@ -108,7 +108,10 @@ class Sim(object):
 
     def op_set_parameters(self, op):
         d = {k: v for k, v in op["d"]}
-        self.real.set_parameters(dict(d))
+        passed = dict(d)
+        self.real.set_parameters(passed)
+        passed.clear()                      # the caller's dict is the caller's: clearing it must not affect the object
+        passed["zz_later"] = 1
         self.model.update(d)
         self.model = {k: coerce(v) for k, v in self.model.items()}
         if any(type(v) is str and type(coerce(v)) is not str for v in d.values()):
